@@ -778,6 +778,8 @@ class Engine:
             k = self.fresh_int('k')
             self.assume(k >= 0)
             env.locals['__k_%d' % ordn] = VI(k)
+        if inv.get('after_havoc'):
+            inv['after_havoc'](self, env)
         assume_inv()
         for gname, gexpr in inv.get('snapshot', {}).items():
             # values at the head of the arbitrary iteration, for use by the per-iteration obligations
@@ -817,6 +819,11 @@ class Engine:
                 d0 = self.as_z3_int(self.eval_spec(dec_expr, env, self.ghost_env(env)))
             if kind == 'for':
                 self.assign(st.target, seq_get(k), env)
+            for hx in inv.get('hints', []):
+                # instances of ASSUMED library axioms (spec functions named axiom_*), stated where the proof needs them
+                if not hx.strip().startswith('axiom_'):
+                    raise Unsupported('loop hint %r is not an axiom instance' % hx)
+                self.assume(self.as_z3_bool(self.eval_spec(hx, env, self.ghost_env(env))))
             broke = False
             try:
                 self.exec_block(st.body, env)
@@ -857,6 +864,10 @@ class Engine:
         self.trace.append(('loop_exit', ordn))
         if kind == 'for':
             self.assume(k == seq_len)
+        for hx in inv.get('exit_hints', []):
+            if not hx.strip().startswith('axiom_'):
+                raise Unsupported('loop hint %r is not an axiom instance' % hx)
+            self.assume(self.as_z3_bool(self.eval_spec(hx, env, self.ghost_env(env))))
         self.exec_block(st.orelse, env)
 
     def heap_snapshot(self, declared):
@@ -935,6 +946,9 @@ class Engine:
         if typ == 'str' or (typ is None and isinstance(old, VS)) or (
                 typ is None and isinstance(old, VC) and type(old.v) is str):
             return VS(z3.String(self.fresh(name)))
+        if typ == 'bytes' or (typ is None and isinstance(old, VBy)) or (
+                typ is None and isinstance(old, VC) and type(old.v) is bytes):
+            return VBy(z3.String(self.fresh(name)))
         if typ == 'real' or (typ is None and isinstance(old, VR)):
             return VR(z3.Real(self.fresh(name)))
         if typ == 'same' or (typ is None and isinstance(old, (VRef, VFn, VBM, VBI, VCls, VSeq))):
@@ -1526,7 +1540,7 @@ class Engine:
             return v.t != 0
         if isinstance(v, VR):
             return v.t != 0
-        if isinstance(v, VS):
+        if isinstance(v, VS) or isinstance(v, VBy):
             return z3.Length(v.t) > 0
         if isinstance(v, VT):
             return len(v.items) > 0
@@ -1662,6 +1676,9 @@ class Engine:
             return box_int(self.as_z3_int(v))
         if isinstance(v, (VS,)) or (isinstance(v, VC) and isinstance(v.v, str)):
             return box_str(self.as_z3_str(v))
+        if isinstance(v, VBy) or (isinstance(v, VC) and isinstance(v.v, bytes)):
+            from . import bytesmodel
+            return bytesmodel.box_bytes(bytesmodel.bz(self, v))
         if isinstance(v, VSeq):
             return z3.Const('seq!' + v.name, Val)
         if isinstance(v, (VFn, VCls, VBI)):
@@ -1909,7 +1926,7 @@ class _Canon:
             return '@%d=%s' % (self.addr[v.addr], self.heapobj(E.heap[v.addr]))
         if isinstance(v, VC):
             return 'C(%r:%s)' % (v.v, type(v.v).__name__)
-        if isinstance(v, (VI, VB, VS, VR)):
+        if isinstance(v, (VI, VB, VS, VR, VBy)):
             return '%s(%s)' % (type(v).__name__, self.term(v.t))
         if isinstance(v, VT):
             return 'T(%s)' % ','.join(self.val(x) for x in v.items)
